@@ -449,6 +449,10 @@ func TestRoundTrip(t *testing.T) {
 		t.Parallel()
 		rapid.Check(t, propSequence)
 	})
+	t.Run("relay", func(t *testing.T) {
+		t.Parallel()
+		rapid.Check(t, propRelay)
+	})
 	t.Run("reuse", func(t *testing.T) {
 		t.Parallel()
 		rapid.Check(t, propReuse)
